@@ -188,10 +188,10 @@ def check_imaginary(a):
         If the input is complex and is not purely real or purely imaginary.
     """
     if np.iscomplexobj(a):
-        if np.all(a.imag == 0):
-            return a.real, False
-        elif np.all(a.real == 0):
+        if np.all(a.real == 0):
             return a.imag, True
+        elif np.all(a.imag == 0):
+            return a.real, False
         else:
             raise ValueError("cannot have mixed real/imaginary Phase")
     else:
@@ -509,6 +509,9 @@ class Phase(Angle):
         if string.dtype.kind not in "SU":
             raise ValueError("require string input.")
         count, frac = _parse_strings(string)
+        if not (np.any(count.imag) or np.any(frac.imag)):
+            # Real strings: do not let a zero count or fraction look imaginary.
+            count, frac = count.real, frac.real
         return cls(count, frac)
 
     @property
